@@ -13,6 +13,7 @@ package main
 import (
 	"go/constant"
 	"go/token"
+	"go/types"
 
 	"golang.org/x/tools/go/ssa"
 )
@@ -25,6 +26,10 @@ type pathEnv struct {
 	bind map[ssa.Value]ssa.Value
 	res  map[*ssa.Call][]ssa.Value
 	nilK map[ssa.Value]bool // true: known nil, false: known non-nil
+	// cells: the constant last stored on this path into a local variable that is only ever
+	// loaded, stored and captured by closures called or deferred in place (a flag such as
+	// `recycle := true; defer func() { if recycle {...} }()`)
+	cells map[ssa.Value]ssa.Value
 }
 
 func (e *pathEnv) clone() *pathEnv {
@@ -45,6 +50,12 @@ func (e *pathEnv) clone() *pathEnv {
 		n.res = make(map[*ssa.Call][]ssa.Value, len(e.res))
 		for k, v := range e.res {
 			n.res[k] = v
+		}
+	}
+	if e.cells != nil {
+		n.cells = make(map[ssa.Value]ssa.Value, len(e.cells))
+		for k, v := range e.cells {
+			n.cells[k] = v
 		}
 	}
 	if e.nilK != nil {
@@ -101,6 +112,15 @@ func (e *pathEnv) resolve(v ssa.Value) ssa.Value {
 				return v
 			}
 			v = rs[0]
+		case *ssa.UnOp:
+			if x.Op != token.MUL || e.cells == nil {
+				return v
+			}
+			c, ok := e.cells[e.resolve(x.X)]
+			if !ok {
+				return v
+			}
+			v = c
 		default:
 			return v
 		}
@@ -134,6 +154,11 @@ func (e *pathEnv) knownNil(v ssa.Value) (known, isNil bool) {
 	if theWorld != nil {
 		if _, isCall := v.(*ssa.Call); isCall && theWorld.absint().definitelyNonNil(v) {
 			return true, false // fmt.Errorf, errors.New, constructors that always allocate
+		}
+		if u, isLd := v.(*ssa.UnOp); isLd && u.Op == token.MUL {
+			if _, isG := u.X.(*ssa.Global); isG && theWorld.absint().definitelyNonNil(v) {
+				return true, false // a sentinel error variable, initialised once with errors.New
+			}
 		}
 	}
 	switch x := v.(type) {
@@ -316,3 +341,89 @@ func feasibleReach(from, to *ssa.BasicBlock, known map[ssa.Value]bool, target *s
 	}
 	return visit(to, from, env, map[vkey]int{})
 }
+
+// flagCell: alloc is a local variable whose address is used only to load it, to store into it,
+// and to be captured by closures that are called or deferred in place and use it the same way:
+// every write to it lies on an explored path (or in a closure whose call the explorer sees).
+func flagCell(a *ssa.Alloc) bool {
+	if a.Referrers() == nil {
+		return false
+	}
+	var okUse func(addr ssa.Value, depth int) bool
+	okUse = func(addr ssa.Value, depth int) bool {
+		refs := addr.Referrers()
+		if refs == nil || depth > 3 {
+			return false
+		}
+		for _, r := range *refs {
+			switch x := r.(type) {
+			case *ssa.UnOp:
+				if x.Op != token.MUL {
+					return false
+				}
+			case *ssa.Store:
+				if x.Addr != addr {
+					return false
+				}
+			case *ssa.DebugRef:
+			case *ssa.MakeClosure:
+				fn, _ := x.Fn.(*ssa.Function)
+				if fn == nil || x.Referrers() == nil {
+					return false
+				}
+				for _, u := range *x.Referrers() {
+					ci, isCall := u.(ssa.CallInstruction)
+					if !isCall || ci.Common().Value != ssa.Value(x) {
+						return false
+					}
+					if _, isGo := u.(*ssa.Go); isGo {
+						return false
+					}
+				}
+				for i, b := range x.Bindings {
+					if b == addr && i < len(fn.FreeVars) && !okUse(fn.FreeVars[i], depth+1) {
+						return false
+					}
+				}
+			default:
+				return false
+			}
+		}
+		return true
+	}
+	return okUse(a, 0)
+}
+
+// store records a store on the path: a constant into a flag cell is remembered, anything else
+// into it forgets the cell.
+func (e *pathEnv) store(st *ssa.Store) {
+	addr := e.resolve(st.Addr)
+	a, ok := addr.(*ssa.Alloc)
+	if !ok {
+		return
+	}
+	if c, isC := e.resolve(st.Val).(*ssa.Const); isC && flagCell(a) {
+		if e.cells == nil {
+			e.cells = map[ssa.Value]ssa.Value{}
+		}
+		e.cells[a] = c
+		return
+	}
+	if e.cells != nil {
+		delete(e.cells, a)
+	}
+}
+
+// clobberedBy: a closure that is called without being entered may write the cells it captured.
+func (e *pathEnv) clobberedBy(ci ssa.CallInstruction) {
+	if e.cells == nil {
+		return
+	}
+	if mc, ok := ci.Common().Value.(*ssa.MakeClosure); ok {
+		for _, b := range mc.Bindings {
+			delete(e.cells, e.resolve(b))
+		}
+	}
+}
+
+func isErrorType(t types.Type) bool { return t.String() == "error" }
